@@ -32,6 +32,7 @@ SPEC_MODULES = {
     "C11": ["specs.c11_condition"],
     "C12": ["specs.c12_memory"],
     "C13": ["specs.c12_memory"],
+    "C14": ["specs.c14_threads"],
     "C16": ["specs.c16_buffered"],
     "C20": ["specs.c20_lru"],
 }
